@@ -5,8 +5,7 @@ set -e
 cd "$(dirname "$0")"
 export CARGO_NET_OFFLINE=true
 mkdir -p work coq/gen evidence
-python3 translators/gen_rabin.py /repo coq/gen/GenRabin.v
-python3 translators/gen_union.py /repo coq/gen/GenUnionTable.v
+python3 -c "import sys; sys.path.insert(0, 'lib'); import common; b = common.regenerate(); print('translators:', b or 'ok'); sys.exit(1 if b else 0)"
 (cd coq && coq_makefile -f _CoqProject -o Makefile >/dev/null && timeout 3000 make -j16 2>&1 | grep -v "^COQ\|Closed under the global context" || true)
 (cd coq && make -j16 >/dev/null)
 bash ocaml/build.sh
